@@ -240,59 +240,59 @@ def f64_abs(x: ir.f64) -> ir.f64:
 
 
 def f32_floor(x: ir.f32) -> ir.f32:
-    if math.isinf(x):
-        return x
+    if math.isfinite(x):
+        return math.copysign(math.floor(x), x)
     else:
-        return float(math.floor(x))
+        return x
 
 
 def f64_floor(x: ir.f64) -> ir.f64:
-    if math.isinf(x):
-        return x
+    if math.isfinite(x):
+        return math.copysign(math.floor(x), x)
     else:
-        return float(math.floor(x))
+        return x
 
 
 def f32_ceil(x: ir.f32) -> ir.f32:
-    if math.isinf(x):
-        return x
+    if math.isfinite(x):
+        return math.copysign(math.ceil(x), x)
     else:
-        return float(math.ceil(x))
+        return x
 
 
 def f64_ceil(x: ir.f64) -> ir.f64:
-    if math.isinf(x):
-        return x
+    if math.isfinite(x):
+        return math.copysign(math.ceil(x), x)
     else:
-        return float(math.ceil(x))
+        return x
 
 
 def f32_nearest(x: ir.f32) -> ir.f32:
-    if math.isinf(x):
-        return x
+    if math.isfinite(x):
+        return math.copysign(round(x), x)
     else:
-        return float(round(x))
+        return x
 
 
 def f64_nearest(x: ir.f64) -> ir.f64:
-    if math.isinf(x):
-        return x
+    if math.isfinite(x):
+        return math.copysign(round(x), x)
     else:
-        return float(round(x))
+        return x
 
 
 def f32_trunc(x: ir.f32) -> ir.f32:
-    if math.isinf(x):
-        return x
+    if math.isfinite(x):
+        return math.copysign(math.trunc(x), x)
     else:
-        return float(math.trunc(x))
+        return x
 
 
 def f64_trunc(x: ir.f64) -> ir.f64:
-    if math.isinf(x):
-        return x
+    if math.isfinite(x):
+        return math.copysign(math.trunc(x), x)
     else:
-        return float(math.trunc(x))
+        return x
 
 
 def unreachable() -> None:
